@@ -12,7 +12,7 @@ import (
 func CompileToGetDecoder(typ *runtime.Type) (Decoder, error) {
 	initDecoder()
 	typeptr := uintptr(unsafe.Pointer(typ))
-	if typeptr > typeAddr.MaxTypeAddr {
+	if typeptr > typeAddr.MaxTypeAddr || typeptr < typeAddr.BaseTypeAddr {
 		verifSlot(false, 0, typeptr)
 		return compileToGetDecoderSlowPath(typeptr, typ)
 	}
